@@ -22,6 +22,30 @@ theorem length_sadd_le (l : List Nat) (x : Nat) : (sadd l x).length ≤ l.length
 theorem mem_erase_nodup {l : List Nat} {x y : Nat} (h : l.Nodup) : y ∈ l.erase x ↔ y ≠ x ∧ y ∈ l :=
   h.mem_erase_iff
 
+/-- The model's `List.erase` is `SliceSet.Remove` up to the order of the remaining elements. -/
+theorem removeSwap_perm_erase : ∀ (l : List Nat) (x : Nat), (removeSwap l x).Perm (l.erase x)
+  | [], _ => by simp [removeSwap]
+  | y :: r, x => by
+    simp only [removeSwap]
+    by_cases h : y = x
+    · subst h
+      simp only [if_true, List.erase_cons_head]
+      cases hl : r.getLast? with
+      | none => simp [List.getLast?_eq_none_iff.mp hl]
+      | some z =>
+        simp only
+        have : r = r.dropLast ++ [z] := by
+          have hne : r ≠ [] := by intro e; subst e; simp at hl
+          have h1 := List.dropLast_concat_getLast hne
+          have h2 : r.getLast hne = z := by
+            rw [List.getLast?_eq_some_getLast hne] at hl; exact Option.some.inj hl
+          rw [h2] at h1; exact h1.symm
+        conv => rhs; rw [this]
+        exact (List.perm_append_singleton z r.dropLast).symm
+    · simp only [h, if_false]
+      rw [List.erase_cons_tail (by simpa using h)]
+      exact (removeSwap_perm_erase r x).cons y
+
 /-! ### state updates -/
 
 @[simp] theorem setPiece_pieces (s : State) (i : Nat) (pc : Piece) (j : Nat) :
